@@ -1,6 +1,7 @@
-(* Properties_C04.v — C04: start is all-or-nothing.  Theorems only (the handle-state half; the
-   descriptor/heap/child half and the error cause are decided by the fault enumeration of the tie). *)
-From Verif Require Import Lib WorldSpec LibSpec LibSpec2.
+(* Properties_C04.v — C04: start is all-or-nothing.  Theorems only: the handle-state half, and what
+   the RESULT of start means under every fault plan (C04_start_result, proof in StartSpec.v); the
+   descriptor/heap/child residue and the error cause are decided by the fault enumeration of the tie. *)
+From Verif Require Import Lib Build OptSpec WorldSpec WorldSpec2 LibSpec LibSpec2 ParentSpec StartSpec.
 From Coq Require Import Lia.
 Local Open Scope Z_scope.
 
@@ -24,6 +25,56 @@ Theorem C04_invalid_options_no_effect : forall b argv o src k w,
   reproc_start (rp_new b) argv o src k w = Ret (REPROC_EINVAL, rp_new b) w.
 Proof. exact start_invalid_options_no_effect. Qed.
 Print Assumptions C04_invalid_options_no_effect.
+
+(* WHAT THE RESULT MEANS, EVERY FAULT PLAN (any calls failing at any call index with any error
+   number, any latencies, whatever the child and all other processes do): whenever reproc_start
+   returns in the caller, either the result is negative and the life-cycle marker is what it was
+   (a failure of any call -- allocation, pipe, fcntl, getcwd, fork, sigprocmask, waitpid ... -- never
+   surfaces as success: the error number read after a failed call is positive), or the result is 1,
+   the handle is running, its pid is POSITIVE and is exactly the value returned by a fork call
+   that this very start made (logged in the trace after the call began) -- never 0, -1, the
+   invalid marker or the pid of some other process. *)
+Theorem C04_start_result : forall p argv o src (ck : rp -> MW unit) w r p' w',
+  WorldSpec2.wf w -> 0 <= w_cur w -> 0 < w_next_blk w -> (forall q, kp (w_cur w) (ck q)) ->
+  reproc_start p argv o src ck w = Ret (r, p') w' ->
+  (r < 0 /\ h_status p' = h_status p) \/
+  (r = 1 /\ 0 < h_handle p' /\ h_status p' = STATUS_IN_PROGRESS /\
+   exists l ev, w_trace w' = l ++ w_trace w /\ In ev l /\ e_call ev = CFork /\ e_ret ev = h_handle p' /\ e_pid ev = w_cur w').
+Proof.
+  intros p argv o src ck w r p' w' W Hp Hb Hk E.
+  destruct (reproc_start_result p argv o src ck w r p' w' W Hp Hb Hk E) as [H|(H1 & H2 & H3 & H4)]; [left; exact H|right].
+  split; [exact H1|]. split; [exact H2|]. split; [exact H4|exact H3].
+Qed.
+Print Assumptions C04_start_result.
+
+(* the layer below: process_start returns a negative error with the handle untouched, or 1 with the
+   positive pid of its own fork *)
+Theorem C04_process_start_result : forall pr argv o ck w r pid w',
+  WorldSpec2.wf w -> 0 <= w_cur w -> NB w -> kp (w_cur w) ck -> argv <> Some [] ->
+  process_start pr argv o ck w = Ret (r, pid) w' ->
+  (r < 0 /\ pid = pr) \/ (r = 1 /\ 0 < pid /\ FK (w_trace w) pid w').
+Proof. exact process_start_result. Qed.
+Print Assumptions C04_process_start_result.
+
+(* non-vacuity: on the world of C12_ex_start's kind, a start with a failing fork returns the
+   negative fork error, and without faults returns 1 with pid 4328 *)
+Definition C04_ex_prog : str := [47; 116].
+Definition C04_ex_world (faults : list (Z * positive)) : world :=
+  build_world 1000 0 7 [(0, {| f_obj := OExt 1 ARd; f_cloexec := false; f_nonblock := false |})]
+              [] [] [47] [] 64 [([47], FDir); (C04_ex_prog, FExec [])] faults [] std_files.
+Example C04_ex_result :
+  WorldSpec2.wf (C04_ex_world []) /\ 0 <= w_cur (C04_ex_world []) /\ 0 < w_next_blk (C04_ex_world []) /\
+  match reproc_start (rp_new 1) (Some [C04_ex_prog]) options_zero 0 (fun _ => ret tt) (C04_ex_world []) with
+  | Ret (r, p') _ => (r =? 1) && (h_handle p' =? 4328) | _ => false end = true /\
+  match reproc_start (rp_new 1) (Some [C04_ex_prog]) options_zero 0 (fun _ => ret tt) (C04_ex_world [(30, 11%positive)]) with
+  | Ret (r, p') _ => (r <? 0) && (h_handle p' =? -1) | _ => false end = true.
+Proof.
+  split.
+  { split.
+    - eexists. split; [apply lookup_singleton|]. split; reflexivity.
+    - intros k [x Hk]. cbn in Hk. apply lookup_singleton_Some in Hk. destruct Hk as [<- _]. cbn. lia. }
+  split; [cbn; lia|]. split; [cbn; lia|]. split; vm_compute; reflexivity.
+Qed.
 
 Example C04_ex : start_post (rp_new 1) (Build_options None 0 None (Build_redirect 0 0 0 None) (Build_redirect 0 0 0 None) (Build_redirect 0 0 0 None) false false 0 None null_stop 0 false 0 false false) None (REPROC_EINVAL, rp_new 1).
 Proof.
